@@ -825,10 +825,13 @@ func (p *postHandshake) retransmitPostHandshakeFlight(
 		return err
 	}
 	p.registerTransmission(flight, result.TrackedRecords, false)
-	if !disableRetransmitBackoff {
-		flight.RetransmitInterval *= 2
-		if flight.RetransmitInterval > 60*time.Second {
+	if !disableRetransmitBackoff && flight.RetransmitInterval < 60*time.Second {
+		// The rule of handleRetransmitTimeout: compare before doubling, and
+		// leave an interval configured above the cap as it is.
+		if flight.RetransmitInterval > 30*time.Second {
 			flight.RetransmitInterval = 60 * time.Second
+		} else {
+			flight.RetransmitInterval *= 2
 		}
 	}
 	flight.NextRetransmit = now.Add(flight.RetransmitInterval)
